@@ -20,6 +20,7 @@ lines pull items out of the repository source as text and annotate them:
       //@after  loop=N guard=IDENT [nth=K] :: TEXT   (N=0: the function body) that mentions IDENT
       //@+ TEXT                      continuation of the previous TEXT
   //@end
+  //@gen MODULE FUNCTION                              text produced by tools/MODULE.py:FUNCTION() (independent data, e.g. pi words)
 
 Everything that is not covered by a directive is copied verbatim.  If an
 anchor cannot be found the extractor raises ScanError (=> exit 2, undecided).
@@ -162,13 +163,13 @@ class FnSplice:
                     head = "{ let mut %s: %s = %s; while %s >= (%s)\n%s\n" % (var, ty, init, var, a, hdr)
                     step = "%s\n%s -= %s; " % (endtxt, var, k)
                     x4.append({"fn": p["name"], "iter": header_src.strip()[len("for"):].split(" in ", 1)[1].strip(), "var": var,
-                               "while": "let mut %s: %s = %s; while %s >= (%s) { w.push(%s); %s -= %s; }" % (var, ty, init, var, a, var, var, k),
+                               "while": "let mut %s: %s = %s; while %s >= (%s) { w[m] = %s as usize; m += 1; %s -= %s; }" % (var, ty, init, var, a, var, var, k),
                                "side": "(%s) >= (%s) && (%s) > (%s)" % (a, k, b, a)})
                 else:
                     head = "{ let mut %s: %s = %s; while %s < (%s)\n%s\n" % (var, ty, a, var, b, hdr)
                     step = "%s\n%s += %s; " % (endtxt, var, k)
                     x4.append({"fn": p["name"], "iter": header_src.strip()[len("for"):].split(" in ", 1)[1].strip(), "var": var,
-                               "while": "let mut %s: %s = %s; while %s < (%s) { w.push(%s); %s += %s; }" % (var, ty, a, var, b, var, var, k),
+                               "while": "let mut %s: %s = %s; while %s < (%s) { w[m] = %s as usize; m += 1; %s += %s; }" % (var, ty, a, var, b, var, var, k),
                                "side": "true"})
                 repl.append((L["kw"], L["open"], head))
                 add_ins(L["close"], step)
@@ -202,7 +203,7 @@ class FnSplice:
             # unit-returning functions: nothing to name
 
         # apply replacements and insertions from the back
-        ops = [(a, b, 0, s) for (a, b, s) in repl] + [(off, off, od, s) for (off, od, s) in ins]
+        ops = [(a, b, 10**9, s) for (a, b, s) in repl] + [(off, off, od, s) for (off, od, s) in ins]
         # sort: by offset desc; at equal offsets later-declared insertions come later in text,
         # so apply them first when going backwards
         ops.sort(key=lambda t: (t[0], t[2]), reverse=True)
@@ -248,6 +249,12 @@ def build(template_path, repo):
                 info["x4"].extend(x4)
                 info["items"].append("fn %s%s (%s)" % ((cur.params.get("impl", "") + "::") if cur.params.get("impl") else "", cur.params["name"], cur.params["file"]))
                 cur = None
+                continue
+            if kind == "gen":
+                import importlib
+                mod = importlib.import_module(args[0])
+                out.append(getattr(mod, args[1])())
+                info["items"].append("generated by tools/%s.py:%s" % (args[0], args[1]))
                 continue
             if kind in ("struct", "const", "enum", "static", "type"):
                 kv = _kv(args)
